@@ -181,6 +181,7 @@ static J run(const J& c)
     }
     J out = J::obj();
     J calls = J::arr();
+    bool via_inputs = c.has("via") && c["via"].str() == "inputs";
     std::unique_ptr<nitro::options::parser> p;
     try
     {
@@ -203,8 +204,20 @@ static J run(const J& c)
         J r = J::obj();
         try
         {
-            auto args = p->parse(static_cast<int>(argv.size()), argv.data());
-            r = project(args, cfg);
+            if (via_inputs)
+            {
+                // the second public entry point: the caller builds the user_input objects
+                std::vector<nitro::options::user_input> in;
+                for (auto& t : toks)
+                    in.emplace_back(t);
+                auto args = p->parse(in);
+                r = project(args, cfg);
+            }
+            else
+            {
+                auto args = p->parse(static_cast<int>(argv.size()), argv.data());
+                r = project(args, cfg);
+            }
             r.set("oc", "ok");
         }
         catch (const nitro::options::parsing_error& e)
